@@ -128,6 +128,7 @@ var c14sRec = verifkit.New("TestVerif_C14_InterleavedMembership",
 func TestVerif_C14_InterleavedMembership(t *testing.T) {
 	defer c14sRec.Flush()
 	simSetup()
+	startDeadlockWatchdog(c14sRec)
 	rapid.Check(t, func(t *rapid.T) {
 		gname := c13Group(map[string]any{"wildcard-user": map[string]any{"password": map[string]any{"type": "wildcard"}, "permissions": "present"},
 			"users": map[string]any{"slow": map[string]any{"password": c14SlowPassword(), "permissions": "present"}}})
